@@ -5,8 +5,9 @@
      2  tunnel ids   [2; string; wire id; TunnelIDToString(wire id)]
      3  forwarder    [3; upload chunks; download chunks; schedule; up_mid; down_mid; up_final; down_final; eof flags; counters]
      4  forwarder + chunk oracle + FrameStream  [4; data; cuts; eofl; answer; peer_got; local_got; counters ...]
+     5  dialog: two FrameStreams of one tunnel, sequential script of calls on either end  [5; tid; steps; obs]
                      (gated replay of a schedule on the real runBidirectionalForward, Model/Forward.v) *)
-From TX Require Import Base.Val Model.CrossFrame Model.CrossTracker Model.Forward Gen.C10.
+From TX Require Import Base.Val Model.CrossFrame Model.CrossTracker Model.CrossEndpoint Model.Forward Gen.C10.
 Open Scope N_scope.
 
 Definition M := MaxFrameSize.
@@ -159,10 +160,81 @@ Definition check_fwdcut (v : tval) : bool :=
   co_done m && bytes_eqb (co_peer m) (vb (vnth 5 v)) && bytes_eqb (co_local m) (vb (vnth 6 v))
   && (negb (vbool (vnth 7 v)) || ((co_sent m =? vn (vnth 8 v)) && (co_recv m =? vn (vnth 9 v)))).
 
+(* ---- dialog: two FrameStreams of one tunnel on one connection, a sequential script of calls on either end ----
+   [5; tid; steps; obs]   step = [who; kind; a; b]  kind 0 Write a | 1 CloseWrite | 2 Close | 3 read exactly a bytes with b-byte
+   buffers | 4 read to end-of-stream with b-byte buffers;   obs = [n; errkind] for write-side calls, [bytes; term] for reads
+   (term 0 got the bytes, 1 end-of-stream, 2 nothing to read and no end marker: the real Read would block, 3 error) *)
+Definition ep_blocked (s : ep) : bool :=
+  negb (r_eof (e_rst s)) && match pending (e_rst s), rest (e_in s) with [], [] => true | _, _ => false end.
+Fixpoint ep_read_n (fuel : nat) (tid : list N) (s : ep) (n cap : nat) (acc : list N) : ep * list N * N :=
+  match fuel with
+  | O => (s, acc, 3)
+  | S f =>
+    if (n =? 0)%nat then (s, acc, 0) else
+    if ep_blocked s then (s, acc, 2) else
+    let '(s', _, res) := ep_step M false tid s (ERead (Nat.min cap n)) in
+    match res with
+    | Some (RData d) => ep_read_n f tid s' (n - length d) cap (acc ++ d)
+    | Some REof => (s', acc, 1)
+    | _ => (s', acc, 3)
+    end
+  end.
+Fixpoint ep_read_all (fuel : nat) (tid : list N) (s : ep) (cap : nat) (acc : list N) : ep * list N * N :=
+  match fuel with
+  | O => (s, acc, 3)
+  | S f =>
+    if ep_blocked s then (s, acc, 2) else
+    let '(s', _, res) := ep_step M false tid s (ERead cap) in
+    match res with
+    | Some (RData d) => ep_read_all f tid s' cap (acc ++ d)
+    | Some REof => (s', acc, 1)
+    | _ => (s', acc, 3)
+    end
+  end.
+Definition wres_pair (r : wres) : N * N := match r with WOk n => (n, 0) | WClosedPipe => (0, 1) | WNil => (0, 0) end.
+
+Inductive dobs := DW (n e : N) | DR (b : list N) (t : N).
+Fixpoint run_dialog (tid : list N) (a b : ep) (steps : list tval) : list dobs :=
+  match steps with
+  | [] => []
+  | st :: rest_steps =>
+    let who := vbool (vnth 0 st) in
+    let me := if who then b else a in
+    let other := if who then a else b in
+    let k := vn (vnth 1 st) in
+    if k <? 3 then
+      let op := if k =? 0 then WWrite (vb (vnth 2 st)) else if k =? 1 then WCloseWrite else WClose in
+      let '(me', fs, res) := ep_write M tid me op in
+      let other' := ep_feed other (encode_all M fs) in
+      DW (fst (wres_pair res)) (snd (wres_pair res))
+        :: (if who then run_dialog tid other' me' rest_steps else run_dialog tid me' other' rest_steps)
+    else
+      let '(me', got, t) :=
+        if k =? 3 then ep_read_n (S (vnat (vnth 2 st))) tid me (vnat (vnth 2 st)) (vnat (vnth 3 st)) []
+        else ep_read_all (S (length (rest (e_in me)) + length (pending (e_rst me)))) tid me (vnat (vnth 3 st)) [] in
+      DR got t :: (if who then run_dialog tid other me' rest_steps else run_dialog tid me' other rest_steps)
+  end.
+Definition dobs_matches (m : dobs) (o : tval) : bool :=
+  match m with
+  | DW n e => (n =? vn (vnth 0 o)) && (e =? vn (vnth 1 o))
+  | DR b t => bytes_eqb b (vb (vnth 0 o)) && (t =? vn (vnth 1 o))
+  end.
+(* the harness stops at the first failing step: compare what it observed with the model's prefix *)
+Fixpoint prefix_match (m : list dobs) (o : list tval) : bool :=
+  match o, m with
+  | [], _ => true
+  | x :: o', y :: m' => dobs_matches y x && prefix_match m' o'
+  | _ :: _, [] => false
+  end.
+Definition model_dialog (v : tval) : list dobs :=
+  run_dialog (vb (vnth 1 v)) (ep_init (mkrd [] [])) (ep_init (mkrd [] [])) (vl (vnth 2 v)).
+Definition check_dialog (v : tval) : bool :=
+  prefix_match (model_dialog v) (vl (vnth 3 v)) && (length (vl (vnth 3 v)) =? length (vl (vnth 2 v)))%nat.
+
 Definition check (v : tval) : bool :=
   let k := vn (vnth 0 v) in
   if k =? 0 then check_dec v else if k =? 1 then check_stream v else if k =? 2 then check_tid v
-  else if k =? 3 then check_fwd v else if k =? 4 then check_fwdcut v else false.
+  else if k =? 3 then check_fwd v else if k =? 4 then check_fwdcut v else if k =? 5 then check_dialog v else false.
 
 Definition enc_dec (m : dres * N) : tval :=
   match fst m with
@@ -179,5 +251,6 @@ Definition predict (v : tval) : tval :=
   else if k =? 3 then VL [VB (sink_up (fwd_mid v)); VB (sink_down (fwd_mid v)); VB (sink_up (fwd_final v)); VB (sink_down (fwd_final v));
                           VN (N.of_nat (sent_counter (fwd_final v))); VN (N.of_nat (recv_counter (fwd_final v)))]
   else if k =? 4 then let m := model_fwdcut v in VL [VB (co_peer m); VB (co_local m); VN (co_sent m); VN (co_recv m)]
+  else if k =? 5 then VL (map (fun d => match d with DW n e => VL [VN n; VN e] | DR b t => VL [VB b; VN t] end) (model_dialog v))
   else VL [VB (wire_id (vb (vnth 1 v))); VB (id_to_string (vb (vnth 2 v)))].
 Close Scope N_scope.
